@@ -101,10 +101,11 @@ def bnd_label(assign):
 def make_boundaries(assign, shape, cfg, thickness=None):
     out = []
     for ax, (lo, hi) in enumerate(assign):
+        k = sym_real(f"bloch_k{ax}") if "bloch" in (lo, hi) else None  # one wave vector per axis
         if lo is not None:
-            out.append(scene.make_boundary(lo, ax, "-", shape, cfg, thickness=thickness))
+            out.append(scene.make_boundary(lo, ax, "-", shape, cfg, thickness=thickness, bloch_k=k))
         if hi is not None:
-            out.append(scene.make_boundary(hi, ax, "+", shape, cfg, thickness=thickness))
+            out.append(scene.make_boundary(hi, ax, "+", shape, cfg, thickness=thickness, bloch_k=k))
     return out
 
 
